@@ -380,11 +380,11 @@ class Backend(ABC):
             return False
 
         # All argument values must be (case-insensitive) strings or numbers; a case-sensitive
-        # string can't be expressed as element of a plain value list.
+        # string or a part of a timestamp can't be expressed as element of a plain value list.
         if not all(
             [
                 isinstance(arg.value, (SigmaString, SigmaNumber))
-                and not isinstance(arg.value, SigmaCasedString)
+                and not isinstance(arg.value, (SigmaCasedString, SigmaTimestampPart))
                 for arg in args
             ]
         ):
